@@ -1912,6 +1912,7 @@ func (e *SplatExpr) Value(ctx *hcl.EvalContext) (cty.Value, hcl.Diagnostics) {
 	for it.Next() {
 		_, sourceItem := it.Element()
 		e.Item.setValue(ctx, sourceItem)
+		verifYield("splat-after-set")
 		newItem, itemDiags := e.Each.Value(ctx)
 		diags = append(diags, itemDiags...)
 		if itemDiags.HasErrors() {
@@ -1919,6 +1920,7 @@ func (e *SplatExpr) Value(ctx *hcl.EvalContext) (cty.Value, hcl.Diagnostics) {
 		}
 		vals = append(vals, newItem)
 	}
+	verifYield("splat-before-clear")
 	e.Item.clearValue(ctx) // clean up our temporary value
 
 	if upgradedUnknown {
@@ -2006,6 +2008,7 @@ func (e *AnonSymbolExpr) Value(ctx *hcl.EvalContext) (cty.Value, hcl.Diagnostics
 	defer e.valuesLock.RUnlock()
 
 	val, exists := e.values[ctx]
+	verifEvent("get", e, ctx, val, exists)
 	if !exists {
 		return cty.DynamicVal, nil
 	}
@@ -2025,6 +2028,7 @@ func (e *AnonSymbolExpr) setValue(ctx *hcl.EvalContext, val cty.Value) {
 		panic("can't setValue for a nil EvalContext")
 	}
 	e.values[ctx] = val
+	verifEvent("set", e, ctx, val, true)
 }
 
 func (e *AnonSymbolExpr) clearValue(ctx *hcl.EvalContext) {
@@ -2038,6 +2042,7 @@ func (e *AnonSymbolExpr) clearValue(ctx *hcl.EvalContext) {
 		panic("can't clearValue for a nil EvalContext")
 	}
 	delete(e.values, ctx)
+	verifEvent("clear", e, ctx, cty.NilVal, false)
 }
 
 func (e *AnonSymbolExpr) walkChildNodes(w internalWalkFunc) {
